@@ -664,7 +664,8 @@ class BufferByteArray(XBuffer):
 
     def update_from_native(self, offset, source, source_offset, nbytes):
         """Copy data from native buffer into self.buffer starting from offset"""
-        self.buffer[offset : offset + nbytes] = source[
+        # memoryview: a bytearray slice takes buffers, not numpy int8 arrays
+        self.buffer[offset : offset + nbytes] = memoryview(source)[
             source_offset : source_offset + nbytes
         ]
 
